@@ -1,7 +1,7 @@
 (* C10 — The population size is conserved across generations. *)
 From Coq Require Import String List ZArith Bool Arith Permutation.
 From PV Require Import Xnum Select PyLib Select_proofs Loop Loop_proofs Skeleton Skeleton_proofs SizeModels.
-From PVGen Require Import Algos Expected GenSelect.
+From PVGen Require Import Algos Expected GenSelect GenHyper.
 From PVBridge Require Import AlgoBridge SelectBridge C16Main ElitMain SizeBridge.
 
 Theorem C10_pinned_set : forall n, In n pinned_size_regular ->
@@ -50,3 +50,9 @@ Print Assumptions C10_grouping_regenerated.
 Print Assumptions C10_initial_size.
 Print Assumptions C10_write_preserves.
 Print Assumptions C10_regular_size.
+
+(* state shared between objects (regenerated scan of the whole package: memoising decorators, mutable class attributes of non-pydantic classes, module-level
+   containers mutated by functions): there is none - no population layout is cached across instances *)
+Theorem C10_no_shared_mutable_state : gen_no_shared_mutable_state = true.
+Proof. reflexivity. Qed.
+Print Assumptions C10_no_shared_mutable_state.
